@@ -22,6 +22,7 @@ import (
 	"fmt"
 	"math"
 	"os"
+	"reflect"
 	"sort"
 	"strings"
 
@@ -89,6 +90,18 @@ func modName(m *tengo.ImmutableMap) string {
 	return ""
 }
 
+// fnVarArgs reads CompiledFunction.VarArgs by name, so that the harness still builds (and finds a failing
+// run) when a field the VM needs is renamed out of gob's sight.
+func fnVarArgs(f *tengo.CompiledFunction) bool {
+	v := reflect.ValueOf(f).Elem()
+	for _, n := range []string{"VarArgs", "varArgs"} {
+		if fv := v.FieldByName(n); fv.IsValid() && fv.Kind() == reflect.Bool {
+			return fv.Bool()
+		}
+	}
+	return false
+}
+
 type ptrIDs map[*tengo.CompiledFunction]int
 
 func (p ptrIDs) id(f *tengo.CompiledFunction) int {
@@ -102,7 +115,7 @@ func (p ptrIDs) id(f *tengo.CompiledFunction) int {
 func constSexp(c tengo.Object, ids ptrIDs) string {
 	switch c := c.(type) {
 	case *tengo.CompiledFunction:
-		return lib.L("fn", lib.Hex(c.Instructions), lib.N(c.NumLocals), lib.N(c.NumParameters), lib.B(c.VarArgs),
+		return lib.L("fn", lib.Hex(c.Instructions), lib.N(c.NumLocals), lib.N(c.NumParameters), lib.B(fnVarArgs(c)),
 			lib.SrcMapSexp(c.SourceMap), lib.N(ids.id(c)))
 	case *tengo.Int:
 		return lib.L("i", lib.I(c.Value))
@@ -377,8 +390,8 @@ func checkGobStructure(in replayInput, a, b *tengo.Bytecode) {
 			bad("gob-numlocals-differ", fmt.Sprintf("function #%d: %d -> %d", i, x.NumLocals, y.NumLocals))
 		case x.NumParameters != y.NumParameters:
 			bad("gob-numparameters-differ", fmt.Sprintf("function #%d: %d -> %d", i, x.NumParameters, y.NumParameters))
-		case x.VarArgs != y.VarArgs:
-			bad("gob-varargs-differ", fmt.Sprintf("function #%d: %v -> %v", i, x.VarArgs, y.VarArgs))
+		case fnVarArgs(x) != fnVarArgs(y):
+			bad("gob-varargs-differ", fmt.Sprintf("function #%d: %v -> %v", i, fnVarArgs(x), fnVarArgs(y)))
 		case lib.SrcMapSexp(x.SourceMap) != lib.SrcMapSexp(y.SourceMap):
 			bad("gob-sourcemap-differs", fmt.Sprintf("function #%d", i))
 		case len(y.Free) != 0:
@@ -703,7 +716,7 @@ func genProfile(r *lib.RNG) lib.Profile {
 
 func poolCase(r *lib.RNG) {
 	nan2 := math.Float64frombits(0x7ff8000000000123)
-	sharedFns := []*tengo.CompiledFunction{{NumLocals: 1}, {NumParameters: 2, VarArgs: true}, {}}
+	sharedFns := []*tengo.CompiledFunction{{NumLocals: 1}, {NumParameters: 2, NumLocals: 2}, {}}
 	n := 1 + r.Intn(12)
 	mkConst := func() tengo.Object {
 		switch r.Intn(8) {
